@@ -279,3 +279,17 @@ mod tests {
         assert_eq!(result.len(), 1);
     }
 }
+
+#[cfg(feature = "verif-hooks")]
+impl<R, E, V: Clone> SegExpTree<R, E, V> {
+    /// Read-only dump of every physically stored copy (feature `verif-hooks`).
+    pub fn verif_dump(&self) -> crate::verif::VerifSegDump<V> {
+        let mut copies = Vec::new();
+        for (place, chunk) in self.chunks.iter().enumerate() {
+            for e in chunk.buffer.iter() {
+                copies.push(crate::verif::VerifSegCopy { place, mask: e.mask, val: e.val.clone() });
+            }
+        }
+        crate::verif::VerifSegDump { places: self.chunks.len(), copies }
+    }
+}
